@@ -293,6 +293,7 @@ def check_c14(prog, rep, tier, cfg):
             ok = any(c[0] == "call" and c[1].endswith("is_empty") and c[3] is False and "tokens" in canon(cp, c[2][0]) for c in conds) and len([c for c in conds if c[0] in ("call", "cmp")]) == 1
         rep.check(ok, R, "only-empty-lines-skipped", "consolidate_pass_lines drops lines for a reason other than `tokens.is_empty()`", instance={"skip_condition": "line.tokens.is_empty()"})
     # ---------------------------------------------------------------- C14.e who mutates line token lists
+    contexts_end_only_by_their_predicate(prog, rep, "C14.g")
     R = "C14.e"
     w1 = sorted({a[0].npath for a in prog.field_accesses(P + "LocalLogicalLine", "tokens") if a[3] in ("refmut", "write", "write-inner")})
     import layout as _layout
@@ -329,6 +330,27 @@ def check_c14(prog, rep, tier, cfg):
     if rep.check(dt is not None, R, "anchor:DirectiveTree::parse", "DirectiveTree::parse not found"):
         seq = sorted(c.callee.split("::")[-1] for c in dt.calls())
         rep.check(seq == ["enumerate", "iter", "map", "parse_next"], R, "tree-built-from-all-tokens", "DirectiveTree::parse no longer enumerates the full token slice: %s" % seq, instance={"chain": seq})
+
+
+def contexts_end_only_by_their_predicate(prog, rep, R):
+    """C14.g — a parser context is marked as ended only when an ending predicate fired for it: every call of
+    ParserContexts::update_statuses passes the index that get_ending_context_idx() returned, and nothing else writes `true` into
+    is_ended.  The top-level context is never ended by its predicate mechanism while tokens remain; ending it by hand (`end.`
+    closes everything) makes the top-level loop return early — the tokens after that point land in no logical line."""
+    PC = P + "ParserContexts::"
+    cs = [c for c in prog.who_calls(PC + "update_statuses") if c.body.crate.startswith("pasfmt")]
+    n = 0
+    for c in cs:
+        o = Origins(c.body).of_operand(c.args[1])
+        ok = bool(o) and all(x[0] == "call" and x[2] == PC + "get_ending_context_idx" for x in o)
+        n += 1
+        rep.check(ok, R, "ended-index-from-predicate:%s" % short(c.body.npath), "%s marks parser contexts as ended from index %s, which is not the result of get_ending_context_idx(): contexts (in the worst case the "
+                  "top-level one) end although their predicate did not fire, the enclosing statement loop returns early and the remaining tokens get no logical line"
+                  % (short(c.body.npath), sorted(str(x[2]) if x[0] != "call" else x[2].split("::")[-1] for x in o)), where=c.where(), instance={"caller": short(c.body.npath), "index": "get_ending_context_idx()"})
+    rep.floor(R, "calls of update_statuses", n, 2)
+    w = sorted({a[0].npath for a in prog.field_accesses(P + "ParserContexts", "is_ended") if a[3] in ("write", "write-inner", "refmut")})
+    rep.check(set(w) <= {PC + "update_statuses", PC + "push", PC + "pop", PC + "push_context", PC + "pop_context"} and (PC + "update_statuses") in w, R, "who-writes:is_ended",
+              "ParserContexts.is_ended is written in %s" % [short(x) for x in w], instance={"writers": [short(x) for x in w]})
 
 
 PROPERTIES = {
